@@ -7,7 +7,7 @@ The list-level mirror of the engine's interpreter (`Model/Interp.lean`), run on 
 the model of the frontend (`Model/Frontend.lean`), computes exactly the rows — same rows, same
 order — that the declarative semantics (`Model/Spec.lean`) assigns to the query tree.
 
-Full target (fragments F2 `@recurse`, F3 `@fold` still open):
+Full target (fragment F3 `@fold` still open):
 
     theorem interp_eq_spec (S : SchemaView) (q : Spec.Query) (ir : IRQuery) (D : Data) (args) :
         toIR S q = .ok ir → Hyps ⟨S, D, args, edges⟩ 3 q →
@@ -30,7 +30,10 @@ succeeds iff the other does, and then with equal row lists (`interp_ok_iff_spec_
    evaluates the filters in a different order than written, which is observable through operator
    panics only);
  * nesting depth ≤ 64 (the fuel of `Spec.rows`);
- * every edge kind lies in the fragment.
+ * every edge kind lies in the fragment;
+ * for a `@recurse` edge: the dataset convention `recConvB` (a vertex failing the implicit coercion
+   between recursion levels has no such edge: `hconv` of `recurse_is_reach`), and `paramsAgreeRecB`
+   (the specification completes the edge parameters once, from the starting vertex' declaration).
 -/
 import TrustfallModel.Proofs.InterpSpec.Main
 
@@ -44,7 +47,7 @@ theorem interp_eq_spec_F0 (S : SchemaView) (q : Query) (ir : IRQuery) (D : Data)
     (h : toIR S q = .ok ir) (hfrag : fragNode q.root = 0) (hh : Hyps ⟨S, D, args, edges⟩ 1 q) :
     (interpret { Env.ofData D args with useLimits := false } ir).toOption =
       (Spec.rows ⟨D, args, edges⟩ q).toOption :=
-  interp_eq_spec_F1_core S q ir D args edges false h (by omega) hh
+  interp_eq_spec_core S q ir D args edges false 1 (by decide) h (by omega) hh
 
 /-- **F1** — plain and `@optional` edges in arbitrary nesting, type coercions, filters on
 variables and on tags of the same or of earlier vertices (incl. tags defined in a missing optional
@@ -54,7 +57,7 @@ theorem interp_eq_spec_F1 (S : SchemaView) (q : Query) (ir : IRQuery) (D : Data)
     (h : toIR S q = .ok ir) (hfrag : fragNode q.root ≤ 1) (hh : Hyps ⟨S, D, args, edges⟩ 1 q) :
     (interpret { Env.ofData D args with useLimits := false } ir).toOption =
       (Spec.rows ⟨D, args, edges⟩ q).toOption :=
-  interp_eq_spec_F1_core S q ir D args edges false h hfrag hh
+  interp_eq_spec_core S q ir D args edges false 1 (by decide) h hfrag hh
 
 /-- The same, spelled out: the engine model yields rows iff the semantics does, and they are the
 same rows in the same order. -/
@@ -75,7 +78,58 @@ theorem interp_eq_spec_F1_default_env (S : SchemaView) (q : Query) (ir : IRQuery
     (args : List (Name × Value)) (edges : List EdgeDecl)
     (h : toIR S q = .ok ir) (hfrag : fragNode q.root ≤ 1) (hh : Hyps ⟨S, D, args, edges⟩ 1 q) :
     (interpret (Env.ofData D args) ir).toOption = (Spec.rows ⟨D, args, edges⟩ q).toOption :=
-  interp_eq_spec_F1_core S q ir D args edges true h hfrag hh
+  interp_eq_spec_core S q ir D args edges true 1 (by decide) h hfrag hh
+
+/-- **F2** — F1 + `@recurse(depth: d)` edges (arbitrarily nested with plain/optional edges,
+incl. recursion inside a missing optional scope): the piggy-backed level-by-level expansion with
+suspension of non-coercible vertices yields exactly the declarative pre-order `reach` to depth
+`d`. -/
+theorem interp_eq_spec_F2 (S : SchemaView) (q : Query) (ir : IRQuery) (D : Data)
+    (args : List (Name × Value)) (edges : List EdgeDecl)
+    (h : toIR S q = .ok ir) (hfrag : fragNode q.root ≤ 2) (hh : Hyps ⟨S, D, args, edges⟩ 2 q) :
+    (interpret { Env.ofData D args with useLimits := false } ir).toOption =
+      (Spec.rows ⟨D, args, edges⟩ q).toOption :=
+  interp_eq_spec_core S q ir D args edges false 2 (by decide) h hfrag hh
+
+theorem interp_ok_iff_spec_ok_F2 (S : SchemaView) (q : Query) (ir : IRQuery) (D : Data)
+    (args : List (Name × Value)) (edges : List EdgeDecl)
+    (h : toIR S q = .ok ir) (hfrag : fragNode q.root ≤ 2) (hh : Hyps ⟨S, D, args, edges⟩ 2 q)
+    (rows : List Row) :
+    interpret { Env.ofData D args with useLimits := false } ir = .ok rows ↔
+      Spec.rows ⟨D, args, edges⟩ q = .ok rows := by
+  have := interp_eq_spec_F2 S q ir D args edges h hfrag hh
+  cases hi : interpret { Env.ofData D args with useLimits := false } ir <;>
+    cases hs : Spec.rows ⟨D, args, edges⟩ q <;> simp_all [R.toOption]
+
+/-- F2 for the engine's default environment (fold-count limits enabled: no fold, no effect). -/
+theorem interp_eq_spec_F2_default_env (S : SchemaView) (q : Query) (ir : IRQuery) (D : Data)
+    (args : List (Name × Value)) (edges : List EdgeDecl)
+    (h : toIR S q = .ok ir) (hfrag : fragNode q.root ≤ 2) (hh : Hyps ⟨S, D, args, edges⟩ 2 q) :
+    (interpret (Env.ofData D args) ir).toOption = (Spec.rows ⟨D, args, edges⟩ q).toOption :=
+  interp_eq_spec_core S q ir D args edges true 2 (by decide) h hfrag hh
+
+/-! ### non-vacuity: a concrete world inside the fragment, hypotheses decided by the kernel
+
+Schema: one type `T` with `n : Int` and an edge `e : [T!]!`; data `0 -e-> 1`; query
+`{ R { n @output(o1) @tag(t1)  e @optional { n @output(o2) @filter(>, %t1) }  e @recurse(depth: 2) { n @output(o3) } } }`. -/
+
+def exS : SchemaView :=
+  { types := [⟨"T", false, [], [("n", ⟨"Int", [true]⟩)], [⟨"e", "T", ⟨"T", [false, false]⟩, []⟩]⟩],
+    roots := [⟨"R", "T", ⟨"T", [false, false]⟩, []⟩] }
+def exD : Data :=
+  { vertices := [⟨0, "T", [("n", .int64 1)]⟩, ⟨1, "T", [("n", .int64 2)]⟩],
+    adj := [⟨0, "e", [], [1]⟩, ⟨1, "e", [], []⟩],
+    starts := [⟨"R", [], [0, 1]⟩], rx := [], sub := [("T", [])] }
+def exQ : Query :=
+  ⟨"R", [], .mk none [.prop "n" [.output "o1", .tag "t1"],
+    .edge "e" [] .optional (.mk none [.prop "n" [.output "o2", .filter (.bin .greaterThan) (.tag "t1")]]),
+    .edge "e" [] (.recurse 2) (.mk none [.prop "n" [.output "o3"]])]⟩
+
+example : (toIR exS exQ).isOk = true := by decide
+example : Hyps ⟨exS, exD, [], []⟩ 2 exQ := by decide
+example (ir : IRQuery) (h : toIR exS exQ = .ok ir) :
+    (interpret (Env.ofData exD []) ir).toOption = (Spec.rows ⟨exD, [], []⟩ exQ).toOption :=
+  interp_eq_spec_F2_default_env exS exQ ir exD [] [] h (by decide) (by decide)
 
 end TF.C01
 
@@ -83,3 +137,6 @@ end TF.C01
 #print axioms TF.C01.interp_eq_spec_F1
 #print axioms TF.C01.interp_ok_iff_spec_ok_F1
 #print axioms TF.C01.interp_eq_spec_F1_default_env
+#print axioms TF.C01.interp_eq_spec_F2
+#print axioms TF.C01.interp_ok_iff_spec_ok_F2
+#print axioms TF.C01.interp_eq_spec_F2_default_env
